@@ -10,22 +10,9 @@
 (* the harness applies it to the base deck of that class and also runs the *)
 (* un-injected control, which must convert.                                *)
 (***************************************************************************)
-EXTENDS Integers, Sequences, FiniteSets, TLC, Json
-
-(* admissible numbers of entries (MCNP manual, chapter 3) *)
-SurfCounts == [ px |-> {1}, py |-> {1}, pz |-> {1}, p |-> {4, 9}, so |-> {1}, s |-> {4}, sx |-> {2}, sy |-> {2},
-                sz |-> {2}, cx |-> {1}, cy |-> {1}, cz |-> {1}, kx |-> {2, 3}, ky |-> {2, 3}, kz |-> {2, 3},
-                sq |-> {10}, gq |-> {10}, tx |-> {5, 6}, ty |-> {5, 6}, tz |-> {5, 6},   \* 5 = circular torus, a converter extension x |-> {2, 4, 6}, y |-> {2, 4, 6},
-                z |-> {2, 4, 6} ]
-SlashCounts == [ cx |-> {3}, cy |-> {3}, cz |-> {3}, kx |-> {4, 5}, ky |-> {4, 5}, kz |-> {4, 5} ]   \* c/x .. k/z
-BodyCounts == [ box |-> {12}, rpp |-> {6}, sph |-> {4}, rcc |-> {7}, rhp |-> {9, 15}, hex |-> {9, 15},
-                rec |-> {10, 12}, trc |-> {8}, ell |-> {7}, wed |-> {12}, arb |-> {30} ]
-BodyFacets == [ box |-> 6, rpp |-> 6, sph |-> 1, rcc |-> 3, rhp |-> 8, hex |-> 8, rec |-> 3, trc |-> 3, ell |-> 1,
-                wed |-> 5 ]
+EXTENDS FaultTables
 
 Rec(class, site, variant) == [class |-> class, site |-> site, variant |-> variant]
-(* every number of entries next to an admissible one that is not itself admissible *)
-OffCounts(S) == { n \in { m - 1 : m \in S } \cup { m + 1 : m \in S } : n \notin S /\ n >= 1 }
 Faults ==
      { Rec("tr_m", s, "-1") : s \in {"trcard", "startrcard", "fill_inline", "starfill_inline", "trcl_inline", "startrcl_inline"} }
   \cup { Rec("lattice_option", "lat", v) : v \in {"absent", "other_cell", "too_few_ranges", "too_many_ranges"} }
